@@ -4,10 +4,13 @@
    keep it from being a [range_cfg]: the splitter is chosen by the presence of "," / " " in the
    trimmed text, and a constraint that is exactly "*" is a wildcard. *)
 From Verif.Base Require Import Bytes GoNum Ord.
+From Verif.Gen Require Operators.
 From Verif.Eco Require Import RangeCore.
 
 (* operators := []string{">=", "<=", "!=", ">", "<", "="} in parseSingleConstraint *)
-Definition semver_ops : list bytes := [$">="; $"<="; $"!="; $">"; $"<"; $"="].
+(* the list is generated from the Go source on every run (tools/gen -> Gen/Operators.v) *)
+Definition semver_ops : list bytes :=
+  Eval cbv delta [Verif.Gen.Operators.semver_ops] in Verif.Gen.Operators.semver_ops.
 
 Inductive constr :=
 | Wild                          (* {operator: "*", version: nil} *)
